@@ -855,6 +855,14 @@ impl LocalDestination {
             .parent()
             .ok_or_else(|| LocalDestinationErrorKind::FileDoesNotHaveParent(filename.clone()))?;
         fs::create_dir_all(dir).map_err(LocalDestinationErrorKind::DirectoryCreationFailed)?;
+        // an existing entry (e.g. from an earlier restore) would make `hard_link` fail with `EEXIST`
+        if filename.symlink_metadata().is_ok() {
+            fs::remove_file(&filename).map_err(|err| LocalDestinationErrorKind::HardLinkingFailed {
+                source_path: source_path.clone(),
+                filename: filename.clone(),
+                source: err,
+            })?;
+        }
         fs::hard_link(&source_path, &filename).map_err(|err| {
             LocalDestinationErrorKind::HardLinkingFailed {
                 source_path,
